@@ -14,6 +14,7 @@ import (
 	"encoding/json"
 	"fmt"
 	"math/rand"
+	"os"
 	"path/filepath"
 	"sort"
 	"strings"
@@ -48,8 +49,9 @@ type input struct {
 
 // fed is one AddHostnamePathMapping call, in call order.
 type fed struct {
-	Rule  int // index into Rules
-	Order int // value of the private HostPath.order field (declaration index inside the host, 0 in direct mode)
+	Rule   int    // index into Rules
+	Order  int    // value of the private HostPath.order field (declaration index inside the host, 0 in direct mode)
+	Target string // the value handed to the map builder ("t<i>", or the backend ID "ns_t<i>_8080" through the instance)
 }
 
 type fileObs struct {
@@ -73,44 +75,16 @@ func matchType(s string) hatypes.MatchType {
 	panic("unknown match type " + s)
 }
 
-// run drives the real code.
-func run(in input) ([]fed, []fileObs) {
-	var order []hatypes.MatchType
-	for _, o := range in.Order {
-		order = append(order, matchType(o))
-	}
-	hm := hatypes.CreateMaps(order).AddMap("/m/hosts.map")
-	var seq []fed
-	if in.Direct {
-		for i, r := range in.Rules {
-			hp := &hatypes.HostPath{Link: hatypes.CreateHostPathLink(r.Host, r.Path, matchType(r.Type))}
-			hm.AddHostnamePathMapping(r.Host, hp, fmt.Sprintf("t%d", i))
-			seq = append(seq, fed{Rule: i, Order: 0})
-		}
-	} else {
-		hosts := hatypes.CreateHosts()
-		idx := map[*hatypes.HostPath]fed{}
-		perHost := map[string]int{}
-		var names []string
-		for i, r := range in.Rules {
-			h := hosts.AcquireHost(r.Host)
-			if _, ok := perHost[r.Host]; !ok {
-				names = append(names, r.Host)
-			}
-			hp := h.AddPath(nil, r.Path, matchType(r.Type))
-			idx[hp] = fed{Rule: i, Order: perHost[r.Host]}
-			perHost[r.Host]++
-		}
-		sort.Strings(names)
-		for _, n := range names {
-			h := hosts.FindHost(n)
-			for _, hp := range h.Paths {
-				f := idx[hp]
-				hm.AddHostnamePathMapping(h.Hostname, hp, fmt.Sprintf("t%d", f.Rule))
-				seq = append(seq, f)
-			}
-		}
-	}
+// observation of one run of the real code
+type obs struct {
+	seq      []fed     // the AddHostnamePathMapping calls, in call order
+	mem      []fileObs // MatchFiles() in memory: Method/Lower/Values
+	rendered []fileObs // what was written: the map files read back, in the order the configuration consults them
+	chain    string    // a defect of the lookup chain of the rendered haproxy.cfg ("" = none; only through the instance)
+	viaInst  bool
+}
+
+func memFiles(hm *hatypes.HostsMap) []fileObs {
 	var files []fileObs
 	for _, mf := range hm.MatchFiles() {
 		fo := fileObs{Name: filepath.Base(mf.Filename()), Method: mf.Method(), Lower: mf.Lower()}
@@ -119,7 +93,51 @@ func run(in input) ([]fed, []fileObs) {
 		}
 		files = append(files, fo)
 	}
-	return seq, files
+	return files
+}
+
+// run drives the real code.
+//   - Direct: the map builder alone, HostPath values made by hand, files written with the
+//     real map template as config.go writeMaps does;
+//   - otherwise (and inside the guard): a real haproxy.Instance, Config filled through
+//     Hosts.AcquireHost / Host.AddPath / Backends.AcquireBackend, HAProxyUpdate; the lookup
+//     chain is read from the rendered haproxy.cfg and the map files it names from disk;
+//   - malformed, not direct: Hosts + map builder + map template (no instance).
+func run(in input, mr *mapRenderer, ie *instEnv) obs {
+	if !in.Direct && !in.Malformed {
+		return ie.run(in)
+	}
+	var order []hatypes.MatchType
+	for _, o := range in.Order {
+		order = append(order, matchType(o))
+	}
+	hm := hatypes.CreateMaps(order).AddMap(mr.next())
+	var seq []fed
+	if in.Direct {
+		for i, r := range in.Rules {
+			hp := &hatypes.HostPath{Link: hatypes.CreateHostPathLink(r.Host, r.Path, matchType(r.Type))}
+			hm.AddHostnamePathMapping(r.Host, hp, fmt.Sprintf("t%d", i))
+			seq = append(seq, fed{Rule: i, Order: 0, Target: fmt.Sprintf("t%d", i)})
+		}
+	} else {
+		hosts := hatypes.CreateHosts()
+		idx := map[*hatypes.HostPath]fed{}
+		perHost := map[string]int{}
+		for i, r := range in.Rules {
+			h := hosts.AcquireHost(r.Host)
+			hp := h.AddPath(nil, r.Path, matchType(r.Type))
+			idx[hp] = fed{Rule: i, Order: perHost[r.Host], Target: fmt.Sprintf("t%d", i)}
+			perHost[r.Host]++
+		}
+		for _, h := range hosts.BuildSortedItems() {
+			for _, hp := range h.Paths {
+				f := idx[hp]
+				hm.AddHostnamePathMapping(h.Hostname, hp, fmt.Sprintf("t%d", f.Rule))
+				seq = append(seq, f)
+			}
+		}
+	}
+	return obs{seq: seq, mem: memFiles(hm), rendered: mr.render(hm)}
 }
 
 // ---------------------------------------------------------------- HAProxy matching (transcription of pattern.c)
@@ -351,10 +369,10 @@ func overlapsCode(a, b keyed) bool {
 		strings.HasPrefix(a.kpath, b.kpath)
 }
 
-func fileOf(files []fileObs, target string) int {
+func fileOf(files []fileObs, rule int) int {
 	for fi, f := range files {
 		for _, e := range f.Entries {
-			if e[1] == target {
+			if targetRule(e[1]) == rule {
 				return fi
 			}
 		}
@@ -383,14 +401,14 @@ func classify(in input, files []fileObs, got, want int) string {
 			// `want` (_upper). It is still in an earlier file: look for the later, shorter
 			// entry of the host that also overlaps `got`, sits in a file before the one of
 			// `want` and so moved the mark backwards.
-			fg, fw := fileOf(files, fmt.Sprintf("t%d", got)), fileOf(files, fmt.Sprintf("t%d", want))
+			fg, fw := fileOf(files, got), fileOf(files, want)
 			if fg >= 0 && fw >= 0 && fg < fw {
 				for i, x := range in.Rules {
 					kx := keyedOf(x)
 					if i == got || i == want || kx.host != kg.host {
 						continue
 					}
-					fx := fileOf(files, fmt.Sprintf("t%d", i))
+					fx := fileOf(files, i)
 					if overlapsCode(kx, kg) && kx.kpath < kw.kpath && fx >= 0 && fx < fw && fx <= fg {
 						return "upper-overwrite"
 					}
@@ -412,7 +430,7 @@ func oracle(in input, files []fileObs) *verdict {
 		n := 0
 		for _, f := range files {
 			for _, e := range f.Entries {
-				if e[1] == fmt.Sprintf("t%d", i) {
+				if targetRule(e[1]) == i {
 					n++
 				}
 			}
@@ -438,8 +456,7 @@ func oracle(in input, files []fileObs) *verdict {
 				if h == nil {
 					return &verdict{"C04/no-answer", fmt.Sprintf("%s: no map entry answers, rule %v applies", req, in.Rules[acc[0]]), nil, in.Rules[acc[0]]}
 				}
-				var got int
-				fmt.Sscanf(h.val, "t%d", &got)
+				got := targetRule(h.val)
 				if len(acc) == 0 {
 					k := "spurious-answer"
 					if strings.ToLower(in.Rules[got].Host) != asciiLower(host) {
@@ -610,7 +627,7 @@ func genChain(rng *rand.Rand) input {
 	return in
 }
 
-var weirdPaths = []string{"//", "/a//", "/a///", "/a//b", "/a#b", "/a?b", "/a/#", "a", "a/b", "/A//B/", "/a/?x", "/a /b", "/%41", "/a//B"}
+var weirdPaths = []string{"//", "/a//", "/a///", "/a//b", "/a#b", "/a?b", "/a/#", "a", "a/b", "/A//B/", "/a/?x", "/%41", "/a//B"}
 var weirdHosts = []string{"H", "Hh.G", "D.local", "g"}
 
 // genMalformed: mostly pool paths with some paths outside the guard; host names may be
@@ -683,7 +700,7 @@ func coqCase(id int, in input, seq []fed, files []fileObs) string {
 	}
 	for _, f := range seq {
 		r := in.Rules[f.Rule]
-		ents = append(ents, hx.Tuple(hx.Str(r.Host), hx.Str(r.Path), coqType(r.Type), hx.N(f.Order), hx.Str(fmt.Sprintf("t%d", f.Rule))))
+		ents = append(ents, hx.Tuple(hx.Str(r.Host), hx.Str(r.Path), coqType(r.Type), hx.N(f.Order), hx.Str(f.Target)))
 	}
 	for _, f := range files {
 		var es []string
@@ -702,6 +719,14 @@ func main() {
 	rng := o.Rng()
 	res := hx.NewResult("C04", "rule sets of 1..4 hosts sharing one map, up to 8 rules per host, types exact/prefix/begin, paths from a pool closed under prefixes, sub-directories and case variants (plus nested chains with alternating types), all 24 path-type orders, HostPath built through Host.AddPath or by hand; non-trivial = at least two non-exact rules of one host of different types nested in each other (ignoring case); distinct by canonical text of the input")
 	cw := hx.NewCaseWriter(o, res, "From HI Require Import Corr.Corr_C04.", "c04case", 250)
+	if abs, err := filepath.Abs(o.Out); err == nil {
+		o.Out = abs
+	}
+	if err := os.Chdir(o.Out); err != nil {
+		panic(err)
+	}
+	mr := newMapRenderer()
+	ie := newInstEnv()
 	var inputs []input
 	if o.Replay != "" {
 		var in input
@@ -735,7 +760,8 @@ func main() {
 		}
 	}
 	for _, in := range inputs {
-		seq, files := run(in)
+		ob := run(in, mr, ie)
+		seq, files := ob.seq, ob.rendered
 		nested := false
 		for i, a := range in.Rules {
 			for j, b := range in.Rules {
@@ -758,8 +784,18 @@ func main() {
 		res.Count(fmt.Sprintf("direct=%v", in.Direct))
 		res.Count(fmt.Sprintf("malformed=%v", in.Malformed))
 		res.Sample(5, map[string]interface{}{"input": in, "files": files})
+		res.Count(fmt.Sprintf("through_instance=%v", ob.viaInst))
 		res.OracleChecks++
-		if v := oracle(in, files); v != nil {
+		// the property is about the files as generated: what was written must be what
+		// MatchFiles() holds, and the configuration must consult the files one after the
+		// other until one answers; the request level oracle then runs on the rendered files
+		if d := sameFiles(ob.mem, ob.rendered); d != "" {
+			res.Count("oracle_fail_C04/rendered-map-differs")
+			res.Fail(hx.Failure{Key: "C04/rendered-map-differs", What: "the generated map files differ from MatchFiles(): " + d, Input: in, Observed: ob.rendered, Expected: ob.mem})
+		} else if ob.chain != "" {
+			res.Count("oracle_fail_C04/lookup-chain")
+			res.Fail(hx.Failure{Key: "C04/lookup-chain", What: ob.chain, Input: in, Observed: ob.rendered})
+		} else if v := oracle(in, files); v != nil {
 			res.Count("oracle_fail_" + v.key)
 			res.Fail(hx.Failure{Key: v.key, What: v.what, Input: in, Observed: v.obs, Expected: v.exp})
 		}
